@@ -314,6 +314,25 @@ func c17ListProblems(all []string) string {
 }
 
 // sequential histories: direct comparison with a Go map (overwrite semantics, last writer wins)
+// c17BuiltinValue is what the built-in name stands for: the package's own constructor.
+func c17BuiltinValue(name string) decoration.Decoration {
+	switch name {
+	case decoration.D_ASCII_SIMPLE:
+		return decoration.ASCIIBoxSimple()
+	case decoration.D_NONE:
+		return decoration.NoBox()
+	case decoration.D_UTF8_LIGHT:
+		return decoration.UTF8BoxLight()
+	case decoration.D_UTF8_LIGHT_CURVED:
+		return decoration.UTF8BoxLightCurved()
+	case decoration.D_UTF8_HEAVY:
+		return decoration.UTF8BoxHeavy()
+	case decoration.D_UTF8_DOUBLE:
+		return decoration.UTF8BoxDouble()
+	}
+	return decoration.EmptyDecoration
+}
+
 func c17Sequential(c *Ctx, i int, r *gen.R) {
 	ns := fmt.Sprintf("s%d-%d-", c.Shard, i)
 	model := map[string]string{}
@@ -327,7 +346,19 @@ func c17Sequential(c *Ctx, i int, r *gen.R) {
 		switch r.Intn(4) {
 		case 0, 1:
 			id := fmt.Sprintf("v%d", k)
+			if r.Bool() {
+				// the same VALUE under several names (and again under the same name): names are independent of each other
+				// whatever they hold, so a later registration under one of them is nobody else's business
+				id = fmt.Sprintf("v%d", r.Intn(3))
+			}
 			val, shape := c17Value(id), "completed by Populate"
+			switch r.Intn(7) {
+			case 6:
+				// the very value a built-in name holds
+				b := c17Builtins[r.Intn(len(c17Builtins))]
+				val, shape = c17BuiltinValue(b), "the value of the built-in "+b
+				id = val.Horizontal
+			}
 			switch r.Intn(6) {
 			case 0:
 				// only the template fields, never run through Populate: the registry stores what it is given
@@ -382,6 +413,21 @@ func c17Sequential(c *Ctx, i int, r *gen.R) {
 	}
 	c.Rec.Eval(gen.Hash64("seq", fmt.Sprint(log)), true)
 	c.Rec.Count("sequential_operations", int64(len(log)))
+	// at the end every name of the history holds what was registered under it last, and the built-ins what they were born with
+	desc["history"] = log
+	for name, want := range modelVal {
+		c.Rec.Count("names_looked_up_at_the_end_of_a_history", 1)
+		if got := decoration.Named(name); got != want {
+			c.Rec.Violate("sequential-lookup-value:at-the-end", fmt.Sprintf("at the end of the history Named(%s) differs from the decoration registered under it last (Horizontal %q, registered %q)", name, got.Horizontal, want.Horizontal), desc)
+			return
+		}
+	}
+	for _, b := range c17Builtins {
+		if got := decoration.Named(b); got != c17BuiltinValue(b) {
+			c.Rec.Violate("built-in-changed", fmt.Sprintf("Named(%s) no longer returns the built-in decoration (TopLeft %q, Horizontal %q), although nothing was registered under that name", b, got.TopLeft, got.Horizontal), desc)
+			return
+		}
+	}
 }
 
 // fail-closed: an unknown name (or a name registered to the empty decoration) reports an error and then refuses to render
